@@ -42,6 +42,30 @@ def f6_pattern_in_text(teal: str, reserved=()) -> bool:
 
     prog = tp.parse(teal)
     ins = [[i.op, i.args[0] if i.args else None] for i in prog.instrs]
+    # recursion spill code (`load a; load b; [uncover n]*; callsub f; [cover/swap]*; store b; store a`) is added after
+    # the optimiser ran: those accesses are invisible to it, so they are taken out of the model
+    spill = set()
+    for c, (o, a) in enumerate(ins):
+        if o != "callsub":
+            continue
+        j = c - 1
+        while j >= 0 and ins[j][0] == "uncover":
+            j -= 1
+        before = {}
+        while j >= 0 and ins[j][0] == "load":
+            before[ins[j][1]] = j
+            j -= 1
+        j = c + 1
+        after = {}
+        while j < len(ins) and ins[j][0] in ("store", "cover", "uncover", "swap"):
+            if ins[j][0] == "store":
+                after[ins[j][1]] = j
+            j += 1
+        for k in set(before) & set(after):
+            spill.add(before[k])
+            spill.add(after[k])
+    for j in spill:
+        ins[j] = ["nop-spill", None]
     label_at = set(prog.labels.values())
     # label positions shift as we delete; keep a parallel 'has label before' flag per instruction
     flag = [idx in label_at for idx in range(len(ins))]
@@ -130,3 +154,68 @@ def f8_long_routine_recursion(case, bucket, detail):
         return False
     sizes = [N.size(recipe["main"])] + [N.size(r["body"]) for r in recipe.get("routines", [])]
     return max(sizes) >= 300
+
+
+# --------------------------------------------------------------------------- C04 findings
+
+
+def _has_loop(recipe) -> bool:
+    from .recipe import nodes as N
+
+    return any(n[0] in ("while", "for") for n in N.recipe_nodes(recipe))
+
+
+@predicate("f9_loop_below_v4")
+def f9_loop_below_v4(case, bucket, detail):
+    """F9: While/For compiled at program version 2 or 3 (emits a backward branch, which needs v4)."""
+    if bucket != "static:backjump" or not isinstance(case, dict):
+        return False
+    if "snippet" in case:
+        return case["snippet"] in ("While", "For") and case.get("version", 9) < 4
+    recipe = case.get("recipe")
+    return isinstance(recipe, dict) and _has_loop(recipe) and any(c.get("version", 9) < 4 for c in case.get("configs", []))
+
+
+_ITXN_NEVER_SNIPPETS = {
+    "itxn_field." + n
+    for n in (
+        "first_valid first_valid_time last_valid lease group_index tx_id num_app_args num_accounts num_assets "
+        "num_applications logs num_logs last_log created_asset_id created_application_id num_approval_program_pages "
+        "num_clear_state_program_pages"
+    ).split()
+}
+
+
+@predicate("f17_itxn_field_not_settable")
+def f17_itxn_field_not_settable(case, bucket, detail):
+    """F17: InnerTxnBuilder.SetField(TxnField.X, ..) for a field that itxn_field can never set (read-only/effects fields)."""
+    return bucket == "static:itxn-field" and isinstance(case, dict) and case.get("snippet") in _ITXN_NEVER_SNIPPETS
+
+
+_ITXN_LATE_FIELDS = {"itxn_field." + n: v for n, v in (
+    ("state_proof_pk", 6), ("last_log", 6), ("approval_program_pages", 7), ("clear_state_program_pages", 7),
+    ("num_approval_program_pages", 7), ("num_clear_state_program_pages", 7), ("first_valid_time", 7))}
+
+
+@predicate("f18_itxn_field_version")
+def f18_itxn_field_version(case, bucket, detail):
+    """F18: InnerTxnBuilder.SetField of a field introduced after the program version being compiled."""
+    if bucket != "static:field-version" or not isinstance(case, dict):
+        return False
+    s = case.get("snippet")
+    return s in _ITXN_LATE_FIELDS and case.get("version", 99) < _ITXN_LATE_FIELDS[s]
+
+
+@predicate("f19_block_layout_backjump")
+def f19_block_layout_backjump(case, bucket, detail):
+    """F19: at versions 2-3 the block sorter places a branch arm after its join point and jumps back to it
+    (two or more If/Cond/Assert-style branchings in one routine); no loop involved (loops are F9)."""
+    if bucket != "static:backjump" or not isinstance(case, dict) or "recipe" not in case:
+        return False
+    from .recipe import nodes as N
+
+    recipe = case["recipe"]
+    if _has_loop(recipe):
+        return False
+    nbranch = sum(1 for n in N.recipe_nodes(recipe) if n[0] in ("if", "cond", "assert", "maybe"))
+    return nbranch >= 2 and any(c.get("version", 9) < 4 for c in case.get("configs", []))
